@@ -819,11 +819,17 @@ func calleeClosure(w *World, fi *FuncInfo, depth int) []*FuncInfo {
 				continue
 			}
 			ast.Inspect(f.Decl.Body, func(x ast.Node) bool {
-				call, ok := x.(*ast.CallExpr)
-				if !ok {
-					return true
+				// a call, or a function / method value handed to someone (ast.Inspect(file, finder.visit))
+				var fn *types.Func
+				switch v := x.(type) {
+				case *ast.CallExpr:
+					fn = calleeOf(f.Pkg.TypesInfo, v)
+				case *ast.SelectorExpr:
+					fn, _ = f.Pkg.TypesInfo.Uses[v.Sel].(*types.Func)
+				case *ast.Ident:
+					fn, _ = f.Pkg.TypesInfo.Uses[v].(*types.Func)
 				}
-				if fn := calleeOf(f.Pkg.TypesInfo, call); fn != nil {
+				if fn != nil {
 					if cf := w.Funcs[fn]; cf != nil && cf.Pkg == fi.Pkg && !seen[cf] {
 						seen[cf] = true
 						out = append(out, cf)
